@@ -13,7 +13,8 @@ def run(rep):
     compilerp.fresh_state_obligations(rep)
     # debug comments share the output file with the code (yldpc -d): they must stay comments
     compilerp.debug_noninterference_obligations(rep)
-    enginep.engine_deductive(rep, ['engine.YP.query'], heap_lemmas=False)
+    # every way a goal is run goes through query (which refuses API names): the meta-call builtins delegate to it
+    enginep.engine_deductive(rep, ['engine.YP.query', 'engine.YP.call', 'engine.YP.once', 'engine.YP.findall', 'engine.YP.builtin_neq'], heap_lemmas=False)
     # a source goal never becomes the compiler's internal $CUTIF marker, whose argument is pasted as a label (visitTermpredicate)
     control.parse_deductive(rep, control.PARSE_BODY + control.PARSE_CLAUSE)
     control.text_deductive(rep)
